@@ -3,6 +3,7 @@ LLSD = "hippolyzer/lib/base/llsd.py"
 PACK = "hippolyzer/lib/base/message/data_packer.py"
 MSGSER = "hippolyzer/lib/base/message/llsd_msg_serializer.py"
 LOGGER = "hippolyzer/lib/proxy/message_logger.py"
+SER = "hippolyzer/lib/base/serialization.py"
 
 COPY_ELSE = ("        else:\n"
              "            llsd_val = copy.deepcopy(llsd_val)\n")
@@ -284,6 +285,69 @@ VARIANTS = [
                {"file": PACK, "old": "    return lambda x: typ(*x), _packer\n",
                 "new": "    if needed_elems is not None:\n        _packer = functools.partial(_llsd_leading, needed_elems)\n"
                        "    return lambda x: typ(*x), _packer\n"}]},
+    # ------------------------------------------------------------------ round 4
+    {"name": "R1 LLSD packer rescales the components it hands over", "file": PACK, "expect": "C12.R1",
+     "old": "            return list(x[:needed_elems])\n",
+     "new": "            return [c * 0.5 for c in x[:needed_elems]]\n"},
+    {"name": "P1 LLSD packer copies the components in a comprehension", "file": PACK, "expect": "silent",
+     "old": "            return list(x[:needed_elems])\n",
+     "new": "            return [c for c in x[:needed_elems]]\n"},
+    {"name": "R1 conversion loop in a helper, deserialize hands it a shallow copy", "expect": "C12.R1",
+     "edits": [{"file": MSGSER, "old": "            llsd_val = copy.deepcopy(llsd_val)\n", "new": "            llsd_val = dict(llsd_val)\n"},
+               {"file": MSGSER,
+                "old": "        for block, tmpl_var in self._yield_vars(llsd_val):\n            val = block[tmpl_var.name]\n"
+                       "            block[tmpl_var.name] = LLSDDataPacker.unpack(val, tmpl_var.type)\n",
+                "new": "        self._apply(llsd_val, LLSDDataPacker.unpack)\n"},
+               {"file": MSGSER, "old": "    def can_handle(self,",
+                "new": "    def _apply(self, tree, conv):\n        for blk, tv in self._yield_vars(tree):\n"
+                       "            blk[tv.name] = conv(blk[tv.name], tv.type)\n\n    def can_handle(self,"}]},
+    {"name": "P1 conversion loop in a helper handed the converter", "expect": "silent",
+     "edits": [{"file": MSGSER,
+                "old": "        for block, tmpl_var in self._yield_vars(llsd_val):\n            val = block[tmpl_var.name]\n"
+                       "            block[tmpl_var.name] = LLSDDataPacker.unpack(val, tmpl_var.type)\n",
+                "new": "        self._apply(llsd_val, LLSDDataPacker.unpack)\n"},
+               {"file": MSGSER, "old": "    def can_handle(self,",
+                "new": "    def _apply(self, tree, conv):\n        for blk, tv in self._yield_vars(tree):\n"
+                       "            blk[tv.name] = conv(blk[tv.name], tv.type)\n\n    def can_handle(self,"}]},
+    {"name": "R1 helper is handed the wrong converter", "expect": "C12.R1",
+     "edits": [{"file": MSGSER,
+                "old": "        for block, tmpl_var in self._yield_vars(llsd_val):\n            val = block[tmpl_var.name]\n"
+                       "            block[tmpl_var.name] = LLSDDataPacker.unpack(val, tmpl_var.type)\n",
+                "new": "        self._apply(llsd_val, LLSDDataPacker.pack)\n"},
+               {"file": MSGSER, "old": "    def can_handle(self,",
+                "new": "    def _apply(self, tree, conv):\n        for blk, tv in self._yield_vars(tree):\n"
+                       "            blk[tv.name] = conv(blk[tv.name], tv.type)\n\n    def can_handle(self,"}]},
+    {"name": "P1 IP row as a two-field NamedTuple in both tables", "expect": "silent",
+     "edits": [{"file": PACK, "old": "def _pack_string(pack_string):",
+                "new": "class Pair(NamedTuple):\n    unpacker: Callable\n    packer: Callable\n\n\ndef _pack_string(pack_string):"},
+               {"file": PACK, "old": "        MsgType.MVT_IP_ADDR: (socket.inet_ntoa, socket.inet_aton),\n        MsgType.MVT_IP_PORT",
+                "new": "        MsgType.MVT_IP_ADDR: Pair(unpacker=socket.inet_ntoa, packer=socket.inet_aton),\n        MsgType.MVT_IP_PORT"},
+               {"file": PACK, "old": "        MsgType.MVT_IP_ADDR: (socket.inet_ntoa, socket.inet_aton),\n        # LLSD ints",
+                "new": "        MsgType.MVT_IP_ADDR: Pair(socket.inet_ntoa, socket.inet_aton),\n        # LLSD ints"},
+               {"file": PACK, "old": "    return lambda x: typ(*x), _packer\n", "new": "    return Pair(packer=_packer, unpacker=lambda x: typ(*x))\n"}]},
+    {"name": "R2 buffered parser returns early for empty arrays", "file": SER, "expect": "C12.R2",
+     "old": "        val = super()._parse_array()\n        # _parse_array() checks but doesn't skip the closing ']', do it ourselves.\n        self._getc(1)\n",
+     "new": "        val = super()._parse_array()\n        if not val:\n            return val\n        self._getc(1)\n"},
+    {"name": "R2 buffered parser no longer overrides _parse_array", "file": SER, "expect": "C12.R2",
+     "old": "    def _parse_array(self):\n        val = super()._parse_array()\n"
+            "        # _parse_array() checks but doesn't skip the closing ']', do it ourselves.\n        self._getc(1)\n        return val\n\n",
+     "new": ""},
+    {"name": "P2 buffered parser skips the token in a finally clause", "file": SER, "expect": "silent",
+     "old": "        val = super()._parse_array()\n        # _parse_array() checks but doesn't skip the closing ']', do it ourselves.\n        self._getc(1)\n        return val\n",
+     "new": "        val = super()._parse_array()\n        closing = self._getc()\n        if closing != b']':\n"
+            "            self._error(\"invalid array close token\", -1)\n        return val\n"},
+    {"name": "R5 sniffer trims both ends of the document", "file": LLSD, "expect": "C12.R5",
+     "old": "        data = data.lstrip()\n", "new": "        data = data.lstrip().rstrip(b\"\\r\\n\")\n"},
+    {"name": "R5 parse_binary drops a trailing newline", "file": LLSD, "expect": "C12.R5",
+     "old": "    return HippoLLSDBinaryParser().parse(data)\n", "new": "    return HippoLLSDBinaryParser().parse(data.rstrip(b\"\\n\"))\n"},
+    {"name": "P5 sniffer strips leading ASCII whitespace explicitly", "file": LLSD, "expect": "silent",
+     "old": "        data = data.lstrip()\n", "new": "        data = data.lstrip(b\" \\t\\r\\n\")\n"},
+    {"name": "R4 newline escaping helper escapes tabs instead", "expect": "C12.R4",
+     "edits": [{"file": LLSD, "old": 'return super().STRING(v).replace(b"\\n", b"\\\\n")',
+                "new": 'return self._esc(super().STRING(v))\n\n    @staticmethod\n    def _esc(raw):\n        return raw.replace(b"\\t", b"\\\\t")'}]},
+    {"name": "P4 newline escaping through a static helper", "expect": "silent",
+     "edits": [{"file": LLSD, "old": 'return super().STRING(v).replace(b"\\n", b"\\\\n")',
+                "new": 'return self._esc(super().STRING(v))\n\n    @staticmethod\n    def _esc(raw):\n        return raw.replace(b"\\n", b"\\\\n")'}]},
     # ------------------------------------------------------------------ documented limits
     {"name": "X quaternion packed with two components (count still accepted by the constructor)", "file": PACK, "expect": "miss",
      "old": "MsgType.MVT_LLQuaternion: _make_llsd_tuplecoord_spec(Quaternion, needed_elems=3)",
